@@ -117,6 +117,18 @@ func genC12(seed int64, tier string) []caseOut {
 		emitList("systematic,null-members-add-keys", nullDoc(), A{M{"action": "add-public-keys", "publicKeys": A{validKey(fr, "a1")}}})
 		emitList("systematic,null-members-remove-unknown", nullDoc(), A{M{"action": "remove-services", "ids": A{"nosuch"}}})
 		emitList("systematic,fails-at-1-then-add", mkDoc(), A{bad(), M{"action": "add-public-keys", "publicKeys": A{validKey(fr, "a1")}}})
+		// a leading ietf-json-patch that changes nothing (a test that holds, a replace by the same value, no
+		// operations at all) followed by patches that do, succeeding and failing: the caller's document stays
+		for j, lead := range []M{
+			{"action": "ietf-json-patch", "patches": A{M{"op": "test", "path": "/other/k", "value": 1.0}}},
+			{"action": "ietf-json-patch", "patches": A{M{"op": "replace", "path": "/other/k", "value": 1.0}}},
+			{"action": "ietf-json-patch", "patches": A{}},
+		} {
+			emitList(fmt.Sprintf("systematic,no-effect-json-patch-%d-then-add-services", j), mkDoc(), A{lead, M{"action": "add-services", "services": A{validService(fr, "new")}}})
+			emitList(fmt.Sprintf("systematic,no-effect-json-patch-%d-then-remove-keys", j), mkDoc(), A{lead, M{"action": "remove-public-keys", "ids": A{"old1"}}})
+			emitList(fmt.Sprintf("systematic,no-effect-json-patch-%d-then-add-aka", j), mkDoc(), A{lead, M{"action": "add-also-known-as", "uris": A{"https://aka.example/n"}}})
+			emitList(fmt.Sprintf("systematic,no-effect-json-patch-%d-then-add-then-fail", j), mkDoc(), A{lead, M{"action": "add-public-keys", "publicKeys": A{validKey(fr, "a1")}}, bad()})
+		}
 	}
 	for i := 0; i < n; i++ {
 		doc := M{"publicKey": A{validKey(r, "key1"), validKey(r, "key2")}, "service": A{validService(r, "svc1")}, "other": M{"k": 1.0}, "arr": A{1.0, 2.0}}
